@@ -4,6 +4,7 @@ import re
 from .. import armlib as A
 from .. import hirlib as H
 from .. import tys
+from .. import golden
 from . import c01
 from . import lubarms
 
@@ -202,5 +203,12 @@ def run(ctx):
     rule_sealing(ctx)
     c01.rule_judgments(ctx)
     c01.rule_expected_type(ctx)
+    c01.rule_branch_join(ctx)
+    ctx.rule("normalisation", "type-level beta-normalisation performs the audited steps: an application is unfolded into its whole "
+                              "left-associated spine, the head AND every argument of the spine are normalised, abstractions consume "
+                              "their arguments by substitution (fused when the whole head chain is abstractions), a stuck head keeps "
+                              "the application, a projection of a labelled type reduces; every other former is its own normal form "
+                              "(rules/golden_normalize.json)")
+    golden.check(ctx, "normalisation", "golden_normalize.json")
     ctx.assume("completeness, the exact diagnostic kind, inference and expected-type preparation are NOT decided")
     return {}
